@@ -40,7 +40,17 @@ func (i informator) GetSeqNo() int32      { return i.c.SeqNo }
 func (i informator) GetServerSalt() int64 { return i.c.Salt }
 func (i informator) GetAuthKey() []byte   { return i.c.Key }
 
+// kept: packets and messages handed out earlier must stay what they were while others are sealed and opened
+var kept hx.Retain
+
 func oracle(c Case) error {
+	if err := oracleOne(c); err != nil {
+		return err
+	}
+	return kept.Verify()
+}
+
+func oracleOne(c Case) error {
 	return hx.Safely(func() error {
 		switch c.Dir {
 		case "c2s":
@@ -84,6 +94,7 @@ func oracle(c Case) error {
 			if !bytes.Equal(key, c.Key) {
 				return fmt.Errorf("Serialize modified the auth key")
 			}
+			kept.Keep("a packet returned by Encrypted.Serialize", func() []byte { return pkt })
 		case "s2c":
 			pkt := ref.Seal(c.Key, ref.Envelope{Salt: c.Salt, Session: c.Session, MsgID: c.MsgID, SeqNo: c.SeqNo, Body: c.Body}, 8, c.Pad)
 			m, err := messages.DeserializeEncrypted(append([]byte{}, pkt...), append([]byte{}, c.Key...))
@@ -97,6 +108,7 @@ func oracle(c Case) error {
 			if m.GetMsgID() != int(c.MsgID) || m.GetSeqNo() != int(c.SeqNo) || !bytes.Equal(m.GetMsg(), c.Body) {
 				return fmt.Errorf("accessor values differ from the sealed ones")
 			}
+			kept.Keep("the body of a message returned by DeserializeEncrypted", func() []byte { return m.Msg })
 		case "plain":
 			pkt, err := (&messages.Unencrypted{Msg: append([]byte{}, c.Body...), MsgID: c.MsgID}).Serialize(informator{&c})
 			if err != nil {
@@ -109,6 +121,7 @@ func oracle(c Case) error {
 			if !bytes.Equal(pkt, want) {
 				return fmt.Errorf("plain packet is not 8 zero bytes | msg_id | exact length | body")
 			}
+			kept.Keep("a packet returned by Unencrypted.Serialize", func() []byte { return pkt })
 			// the reference-built plain packet of a server (msg_id with server parity) deserialises to (msg_id, body)
 			sid := c.MsgID | 1
 			in := make([]byte, 8, 20+len(c.Body))
